@@ -85,6 +85,9 @@
             pub fn success(&mut self, value: T)
                 ensures final(self).outcome() == (if old(self).outcome() is None { Some(Ok::<T, RequestError>(value)) } else { old(self).outcome() }),
             { unimplemented!() }
+            // a fresh promise is pending
+            #[verifier::external_body]
+            pub fn channel(tx: crate::shims::tokio::sync::oneshot::Sender<Result<T, RequestError>>) -> (r: Self) ensures r.outcome() is None { unimplemented!() }
         }
 //@trusted client::message::Promise<T>::{success,failure}: complete the callback / oneshot at most once (first completion wins) - not cross-checked: Kani cannot handle Box<dyn FnOnce> + oneshot within 20 min
 
@@ -260,4 +263,7 @@
     }
     pub mod task {
 //@include frag/client_task_full.tpl
+    }
+    pub mod channel {
+//@include frag/client_channel.tpl
     }
